@@ -74,8 +74,13 @@ class Check(PropertyCheck):
                   "client's bytes), `servfail_fields`, `servfail_bytes` (the SERVFAIL of a decoded query encodes and decodes to "
                   "itself), `no_upstream_servfail`, `connect_failure_servfail`, `framer_lawful`/`frames_seg_independent`(`_whole`) "
                   "(messages + error extracted from a TCP stream do not depend on its segmentation; Basic/Seg `Incremental`), "
-                  "`clientFeed_lawful`/`layer_seg_independent`/`reachable_stable` (hooks, bytes sent, closes and state of the whole "
-                  "layer do not depend on the segmentation of the client's stream), `bad_length_closes`, `done_is_final`. "
+                  "`clientFeed_lawful`/`layer_seg_independent`/`reachable_stable` and `serverFeed_lawful`/"
+                  "`layer_seg_independent_server`(`_whole`)/`reachable_stable_server` (hooks, bytes sent, closes and final state "
+                  "of the whole layer do not depend on the segmentation of the client's stream, nor of the upstream server's "
+                  "stream, for any pending queries and addon script), `run_coalesce`/`interleaved_seg_independent`/"
+                  "`coalesce_segments` (any two schedules interleaving client segments, server segments and closes that carry "
+                  "the same bytes between changes of direction are indistinguishable), `bad_length_closes`, "
+                  "`bad_length_closes_server`, `done_is_final`. "
                   "The model is tied differentially to the real DNSLayer driven through harness/common/world.py.")
     level_note = ("trusted: Lean kernel; hand-written model tied differentially (per event: every dns hook with the flow's "
                   "request/response/error as the addon sees them, bytes sent to client and server, connect attempts and results, "
@@ -83,9 +88,8 @@ class Check(PropertyCheck):
                   "and server use the same transport. Addons are modelled by four actions per hook; they do not replace "
                   "flow.request. Events are handled one after the other (Layer.handle_event queues events while a hook or "
                   "connect is pending; exercised on the code by the burst variant with deferred hooks, not proved). The "
-                  "layer-level segmentation law and bad_length_closes are proved for the client's stream; for the server's "
-                  "stream only the extraction-level theorem (`frames_seg_independent`, same `parse`) is proved, the layer-level "
-                  "behaviour is covered by the tie and the oracle. What the client decodes from forwarded upstream replies is "
+                  "interleaving theorem keeps the relative order of client and server bytes at every change of direction "
+                  "(moving a reply in front of its query is a different schedule, not a different segmentation). What the client decodes from forwarded upstream replies is "
                   "C26's theorem; here messages are compared before `pack` (`reply_is_packed` links them to the bytes).")
     technique = "Lean 4 proof (invariants over all schedules, Incremental segmentation law) + differential correspondence through the real DNSLayer"
     rule = ("query/reply schedules over UDP and TCP built from a small pool of ids (heavy id reuse), names and types: matching "
